@@ -13,7 +13,7 @@ from vlib.pkgread import pkg_nets, check_package
 SIGN = ["s", "k", "m0:kk", "m0:l0:m", "lx:m", "m0:g", "m1:kk", "x0:m0:kk"]      # candidate designer signal names
 INSTN = ["lx", "m0:l0", "m0:l0:r0", "m1:rm", "m0:lq", "q"]
 PORTN = ["pa", "m0:kk", "pa", "m1:l0:m", "pa", "m0:h", "pa", "pa"]                 # name of the top's bus port (by index of SIGN)
-LEAFN = ["rt", "m0:rm", "rt", "m1:l2:r1", "rt", "m0:z:ra"]                         # names of a leaf placed directly in the top (by index of INSTN)                           # candidate designer instance names
+LEAFN = ["m0:rm", "rt", "rt", "m1:l2:r1", "rt", "m0:z:ra"]                         # names of a leaf placed directly in the top (by index of INSTN); index 1 stays clash-free so that the top's module instance `m0:l0` (of Leaf2: leaves u / rz) meets the nested path m0 -> l0 (of Leaf: leaves r0 / r1) with NO instance clash: only their internal nets `m` share the flat name `m0:l0:m`
 
 
 def design(w, share, ext, deep, sn, inn, imid):
